@@ -45,6 +45,7 @@ MIN_REACH = {
     "redundant_growers_that_found_the_crop_gone": {"quick": 30, "thorough": 600},
     "schedules_with_megabyte_results": {"quick": 9, "thorough": 40},
     "schedules_with_batches_of_120_settings": {"quick": 25, "thorough": 200},
+    "schedules_polled_by_an_object_that_saw_an_earlier_cycle": {"quick": 40, "thorough": 300},
     "reaps_whose_wait_flag_is_1_or_a_numpy_bool": {"quick": 300, "thorough": 5000},
     "waiting_reaps_that_would_accept_an_incomplete_crop": {"quick": 200, "thorough": 3000},
 }
@@ -84,6 +85,9 @@ CONFIGS = {
     # intermediate saves) must never be taken for a finished result
     "g1_poller_big": (120, 120, [1], False, 3),
     "g2_reaper_poller_big": (240, 120, [2, 1], True, 2),
+    # the poller is a long-lived Crop object that has been through an earlier, complete cycle of this very crop
+    "g1_poller_again": (2, 2, [1], False, 2),
+    "g2_poller_again": (4, 2, [1, 2], False, 3),
     "g1_reaper_waitinc": (4, 2, [2], True, 0),
     "g2_reaper_waitinc": (6, 2, [3, 2], True, 0),
 }
@@ -110,6 +114,8 @@ def cases(ctx):
     # results that are LARGE arrays (megabytes per result file): the same promise, whatever way the bytes reach the file
     for cfg in ("g1_reaper", "g1_poller", "g2_reaper"):
         yield {"cfg": cfg, "mode": "random", "n": ctx.pick(6, 25), "seed": 77, "kind": "array:140000", "stick": 0.5, "large": True}
+    for cfg in ("g1_poller_again", "g2_poller_again"):
+        yield {"cfg": cfg, "mode": "random", "n": ctx.pick(40, 300), "seed": 79, "kind": "int", "stick": 0.4}
     for cfg in ("g1_poller_big", "g2_reaper_poller_big"):
         yield {"cfg": cfg, "mode": "random", "n": ctx.pick(25, 200), "seed": 78, "kind": "int", "stick": 0.3, "big": True}
     # seeded random schedules
@@ -200,6 +206,7 @@ class World(object):
             if cfg.endswith("_waitinc"):
                 crop.grow(1)
         self.waitinc = cfg.endswith("_waitinc")
+        self.again = cfg.endswith("_again")
         # the wait flag as True, as the int 1 (an argparse flag) or as a numpy bool (the result of a comparison)
         import numpy as _np
         self.wait_flag = [True, 1, _np.True_][(len(cfg) + len(kind)) % 3]
@@ -251,6 +258,16 @@ def run_schedule(world, chooser):
     import xyzpy
     world.fresh()
     root = world.root
+    veteran = None
+    if world.again:
+        # the poller's Crop object is a long-lived one: it has already seen this crop through a whole earlier cycle (sown,
+        # grown, complete, reaped - which deleted it) and then sowed it again, the same way
+        with quiet():
+            veteran = xyzpy.Crop(name=NAME, parent_dir=root)
+            veteran.grow_missing()
+            _ = (veteran.num_results, veteran.is_ready_to_reap(), str(veteran))
+            veteran.reap()
+            veteran.sow_combos({"a": list(range(1, world.n + 1))}, verbosity=0)
     fsshim.install(root, None)
     fsshim.reset_counts()
     sched.install_sleep_patch()
@@ -305,7 +322,7 @@ def run_schedule(world, chooser):
         return crop.reap(wait=world.wait_flag, clean_up=False if ((world.same_batch_twice and not world.cleanup) or world.polls) else None)
 
     def poller():
-        crop = xyzpy.Crop(name=NAME, parent_dir=root)
+        crop = veteran if veteran is not None else xyzpy.Crop(name=NAME, parent_dir=root)
         for _ in range(world.polls):
             s0 = S.step
             nr = crop.num_results
@@ -414,6 +431,8 @@ def run_case(ctx, case):
         for i in range(case["n"]):
             if case.get("large"):
                 ctx.count("schedules_with_megabyte_results")
+            if case["cfg"].endswith("_again"):
+                ctx.count("schedules_polled_by_an_object_that_saw_an_earlier_cycle")
             if case["cfg"].endswith("_big"):
                 ctx.count("schedules_with_batches_of_120_settings")
             ch = sched.RandomChooser(rng, case["stick"])
